@@ -661,4 +661,344 @@ end
 
 end Eval
 
+/-! ## prefix / wildcard / regex expansion below the caps -/
+
+theorem isPrefix_nil (t : Str) : isPrefix [] t = true := by cases t <;> rfl
+
+/-- whatever a glob matches starts with the glob's literal prefix -/
+theorem wildMatch_prefix : ∀ (p t : Str), wildMatch p t = true → isPrefix (wildPrefix p) t = true
+  | [], t, _ => by simp [wildPrefix, isPrefix_nil]
+  | ch :: ps, t, h => by
+    unfold wildPrefix
+    split
+    · exact isPrefix_nil t
+    · rename_i hne
+      unfold wildMatch at h
+      have h42 : ch ≠ 42 := fun e => hne (Or.inl e)
+      have h63 : ch ≠ 63 := fun e => hne (Or.inr e)
+      rw [if_neg h42] at h
+      cases t with
+      | nil => simp at h
+      | cons x xs =>
+        simp only [Bool.and_eq_true, Bool.or_eq_true, beq_iff_eq] at h
+        rcases h with ⟨h1 | h1, h2⟩
+        · exact absurd h1 h63
+        · simp only [isPrefix, Bool.and_eq_true, beq_iff_eq]
+          exact ⟨h1, wildMatch_prefix ps xs h2⟩
+
+/-- one step of the per-segment loop when the segment stays below the cap -/
+theorem expandStep_mem (M : Str → Bool) (cap : Nat) (terms seen : List Str) (t : Str)
+    (hcap : (terms.filter M).length ≤ cap) :
+    t ∈ seen ++ ((terms.filter (fun t => M t && !seen.contains t)).take cap) ↔
+      t ∈ seen ∨ (t ∈ terms ∧ M t = true) := by
+  have hlen : (terms.filter (fun t => M t && !seen.contains t)).length ≤ cap := by
+    have : terms.filter (fun t => M t && !seen.contains t) =
+        (terms.filter M).filter (fun t => !seen.contains t) := by
+      rw [List.filter_filter]
+      apply List.filter_congr
+      intro x _
+      exact Bool.and_comm _ _
+    rw [this]
+    exact Nat.le_trans (List.length_filter_le _ _) hcap
+  rw [List.take_of_length_le hlen, List.mem_append, List.mem_filter]
+  constructor
+  · rintro (h | ⟨h1, h2⟩)
+    · exact Or.inl h
+    · simp only [Bool.and_eq_true] at h2
+      exact Or.inr ⟨h1, h2.1⟩
+  · rintro (h | ⟨h1, h2⟩)
+    · exact Or.inl h
+    · by_cases hs : t ∈ seen
+      · exact Or.inl hs
+      · refine Or.inr ⟨h1, ?_⟩
+        simp [h2, hs]
+
+theorem expandFold_mem (M : Str → Bool) (cap : Nat) (f : Str) :
+    ∀ (L : List Seg) (seen : List Str) (t : Str),
+      (∀ s ∈ L, ((segTerms s f).filter M).length ≤ cap) →
+      (t ∈ L.foldl (fun seen s =>
+          seen ++ (((segTerms s f).filter (fun t => M t && !seen.contains t)).take cap)) seen ↔
+        t ∈ seen ∨ ∃ s ∈ L, t ∈ segTerms s f ∧ M t = true)
+  | [], seen, t, _ => by simp
+  | s :: L, seen, t, h => by
+    rw [List.foldl_cons,
+      expandFold_mem M cap f L _ t (fun x hx => h x (List.mem_cons_of_mem _ hx)),
+      expandStep_mem M cap _ seen t (h s (by simp))]
+    constructor
+    · rintro ((h1 | h1) | ⟨x, hx, h1⟩)
+      · exact Or.inl h1
+      · exact Or.inr ⟨s, by simp, h1⟩
+      · exact Or.inr ⟨x, List.mem_cons_of_mem _ hx, h1⟩
+    · rintro (h1 | ⟨x, hx, h1⟩)
+      · exact Or.inl (Or.inl h1)
+      · rcases List.mem_cons.mp hx with rfl | hx
+        · exact Or.inl (Or.inr h1)
+        · exact Or.inr ⟨x, hx, h1⟩
+
+/-- below the cap in every segment, the dictionary expansion collects exactly the matching
+non-empty dictionary terms of all segments -/
+theorem mem_expandDict (c : Ctx) (segs : List Seg) (f : Str) (e : Expansion) (tok t : Str)
+    (hcap : ∀ s ∈ segs, ((segTerms s f).filter (fun t => !t.isEmpty && expMatches c e tok t)).length ≤ e.cap) :
+    t ∈ expandDict c segs f e tok ↔
+      ∃ s ∈ segs, t ∈ segTerms s f ∧ (!t.isEmpty && expMatches c e tok t) = true := by
+  unfold expandDict
+  by_cases h0 : e.cap = 0
+  · rw [if_pos h0]
+    constructor
+    · intro h; cases h
+    · rintro ⟨s, hs, ht, hm⟩
+      have := hcap s hs
+      rw [h0] at this
+      have hmem : t ∈ (segTerms s f).filter (fun t => !t.isEmpty && expMatches c e tok t) :=
+        List.mem_filter.mpr ⟨ht, hm⟩
+      have hl : (List.filter (fun t => !t.isEmpty && expMatches c e tok t) (segTerms s f)).length = 0 := by omega
+      rw [List.length_eq_zero_iff] at hl
+      rw [hl] at hmem
+      cases hmem
+  · rw [if_neg h0]
+    have hcongr : (fun (seen : List Str) (s : Seg) =>
+        seen ++ (((segTerms s f).filter (fun t => !t.isEmpty && expMatches c e tok t && !seen.contains t)).take e.cap)) =
+        (fun seen s => seen ++ (((segTerms s f).filter
+          (fun t => (fun t => !t.isEmpty && expMatches c e tok t) t && !seen.contains t)).take e.cap)) := rfl
+    rw [hcongr, expandFold_mem (fun t => !t.isEmpty && expMatches c e tok t) e.cap f segs [] t hcap]
+    simp
+
+/-- on dictionary terms, the literal-prefix shortcut does not change which terms a pattern
+selects (always for prefix and wildcard patterns; for regex patterns under `rxPrefixOk`) -/
+theorem expMatches_eq_patMatches (c : Ctx) (e : Expansion) (tok t : Str)
+    (hrx : ∀ cap, e = .regex cap → c.rx tok t = true → isPrefix (rxPrefix tok) t = true) :
+    expMatches c e tok t = patMatches c e tok t := by
+  cases e with
+  | exact => rfl
+  | pfx cap => rfl
+  | wildcard cap =>
+    simp only [expMatches, patMatches]
+    cases hw : wildMatch tok t with
+    | false => simp
+    | true => simp [wildMatch_prefix tok t hw]
+  | regex cap =>
+    simp only [expMatches, patMatches]
+    cases hr : c.rx tok t with
+    | false => simp
+    | true => simp [hrx cap rfl hr]
+
+/-- **Pattern groups below their caps are complete.** -/
+theorem pattern_groupOK (c : Ctx) (segs : List Seg) (g : Group) (hne : g.exp ≠ .exact)
+    (hcap : belowCaps c segs g = true) (hrx : rxPrefixOk c segs g = true) : GroupOK c segs g := by
+  intro f hf s hs t ht
+  have hcap' : ∀ tok ∈ patternTokens c f g.term, ∀ s ∈ segs,
+      ((segTerms s f).filter (fun t => !t.isEmpty && expMatches c g.exp tok t)).length ≤ g.exp.cap := by
+    intro tok htok s' hs'
+    unfold belowCaps at hcap
+    cases he : g.exp with
+    | exact => exact absurd he hne
+    | pfx cap =>
+      rw [he] at hcap
+      simp only [List.all_eq_true, decide_eq_true_eq] at hcap
+      exact hcap f hf tok htok s' hs'
+    | wildcard cap =>
+      rw [he] at hcap
+      simp only [List.all_eq_true, decide_eq_true_eq] at hcap
+      exact hcap f hf tok htok s' hs'
+    | regex cap =>
+      rw [he] at hcap
+      simp only [List.all_eq_true, decide_eq_true_eq] at hcap
+      exact hcap f hf tok htok s' hs'
+  have hrx' : ∀ tok ∈ patternTokens c f g.term, ∀ s' ∈ segs, ∀ t' ∈ segTerms s' f,
+      ∀ cap, g.exp = .regex cap → c.rx tok t' = true → isPrefix (rxPrefix tok) t' = true := by
+    intro tok htok s' hs' t' ht' cap he hr
+    unfold rxPrefixOk at hrx
+    rw [he] at hrx
+    simp only [List.all_eq_true, Bool.or_eq_true, Bool.not_eq_true'] at hrx
+    rcases hrx f hf tok htok s' hs' t' ht' with h | h
+    · rw [hr] at h; cases h
+    · exact h
+  have hfield : expandField c segs g f =
+      dedup ((patternTokens c f g.term).flatMap (fun tok => expandDict c segs f g.exp tok)) := by
+    unfold expandField
+    cases he : g.exp with
+    | exact => exact absurd he hne
+    | pfx cap => rfl
+    | wildcard cap => rfl
+    | regex cap => rfl
+  have hterm : Spec.termOk c g f t =
+      (!t.isEmpty && (patternTokens c f g.term).any (fun tok => patMatches c g.exp tok t)) := by
+    unfold Spec.termOk
+    cases he : g.exp with
+    | exact => exact absurd he hne
+    | pfx cap => rfl
+    | wildcard cap => rfl
+    | regex cap => rfl
+  rw [hfield, hterm, mem_dedup, List.mem_flatMap, Bool.and_eq_true, List.any_eq_true]
+  constructor
+  · rintro ⟨tok, htok, hmem⟩
+    obtain ⟨s', hs', ht', hm⟩ := (mem_expandDict c segs f g.exp tok t (hcap' tok htok)).mp hmem
+    simp only [Bool.and_eq_true] at hm
+    refine ⟨hm.1, tok, htok, ?_⟩
+    rw [← expMatches_eq_patMatches c g.exp tok t (hrx' tok htok s' hs' t ht')]
+    exact hm.2
+  · rintro ⟨hne', tok, htok, hm⟩
+    refine ⟨tok, htok, (mem_expandDict c segs f g.exp tok t (hcap' tok htok)).mpr ⟨s, hs, ht, ?_⟩⟩
+    rw [expMatches_eq_patMatches c g.exp tok t (hrx' tok htok s hs t ht)]
+    simp [hne', hm]
+
+/-! ## syntactic coverage: `forces` -/
+
+section Forces
+variable (c : Ctx) (segs : List Seg) (s : Seg) (o : Nat)
+
+/-- some scored term group of the matcher lists the ordinal -/
+def ScoredHit (gs : List Group) : Prop :=
+  ∃ g ∈ gs, g.score = true ∧ groupMatches c segs s o g = true
+
+theorem ScoredHit.mono {c : Ctx} {segs : List Seg} {s : Seg} {o : Nat} {a b : List Group}
+    (h : ∀ g ∈ a, g ∈ b) : ScoredHit c segs s o a → ScoredHit c segs s o b := by
+  rintro ⟨g, hg, h1, h2⟩; exact ⟨g, h g hg, h1, h2⟩
+
+/-- a `QueryString` matcher that requires at least one plain term and accepts: one of the plain
+term groups matched -/
+theorem qs_hit (ts ns : List Group) (ps : List PhraseSpec) (k : Nat) (hk : 1 ≤ k) (hts : ts ≠ [])
+    (h : evalM c segs s o (.queryString ts ps ns (some k)) = true ∨
+      (k = 1 ∧ evalM c segs s o (.queryString ts ps ns none) = true)) :
+    ∃ g ∈ ts, groupMatches c segs s o g = true := by
+  have hlen : 1 ≤ (ts.filter (groupMatches c segs s o)).length := by
+    rcases h with h | ⟨rfl, h⟩
+    · simp only [evalM] at h
+      rw [qs_shape] at h
+      simp only [Bool.and_eq_true, Bool.or_eq_true, decide_eq_true_eq, Option.getD_some] at h
+      rcases h.2 with h2 | h2
+      · cases ts with
+        | nil => exact absurd rfl hts
+        | cons _ _ => simp at h2
+      · omega
+    · simp only [evalM] at h
+      rw [qs_shape] at h
+      simp only [Bool.and_eq_true, Bool.or_eq_true, decide_eq_true_eq, Option.getD_none] at h
+      rcases h.2 with h2 | h2
+      · cases ts with
+        | nil => exact absurd rfl hts
+        | cons _ _ => simp at h2
+      · exact h2
+  cases hfl : ts.filter (groupMatches c segs s o) with
+  | nil => rw [hfl] at hlen; simp at hlen
+  | cons g _ =>
+    have : g ∈ ts.filter (groupMatches c segs s o) := by rw [hfl]; simp
+    rw [List.mem_filter] at this
+    exact ⟨g, this.1, this.2⟩
+
+mutual
+theorem forces_hit : ∀ (q : Q) (sc : Bool), forces sc q = true →
+    evalM c segs s o (plan c sc q) = true → ScoredHit c segs s o (plan c sc q).groups
+  | .matchAll, _, h, _ => by simp [forces] at h
+  | .term f v, sc, h, he => by
+    simp only [forces] at h
+    simp only [plan, evalM] at he
+    exact ⟨_, by simp [plan, Matcher.groups], h, he⟩
+  | .pfx f v cap, sc, h, he => by
+    simp only [forces] at h
+    simp only [plan, evalM] at he
+    exact ⟨_, by simp [plan, Matcher.groups], h, he⟩
+  | .wildcard f v cap, sc, h, he => by
+    simp only [forces] at h
+    simp only [plan, evalM] at he
+    exact ⟨_, by simp [plan, Matcher.groups], h, he⟩
+  | .regex f v cap, sc, h, he => by
+    simp only [forces] at h
+    simp only [plan, evalM] at he
+    exact ⟨_, by simp [plan, Matcher.groups], h, he⟩
+  | .phrase _ _ _, _, h, _ => by simp [forces] at h
+  | .queryString q fields, sc, h, he => by
+    simp only [forces, Bool.and_eq_true, Bool.not_eq_true', List.isEmpty_eq_false_iff] at h
+    simp only [plan] at he
+    have hts : (parseQuery q).terms.map (termGroup (baseFields c fields) sc) ≠ [] := by
+      simpa using h.2
+    obtain ⟨g, hg, hm⟩ := qs_hit c segs s o _ _ _ 1 (Nat.le_refl 1) hts (Or.inr ⟨rfl, he⟩)
+    refine ⟨g, by simp only [plan, Matcher.groups]; exact List.mem_append_left _ hg, ?_, hm⟩
+    obtain ⟨t, _, rfl⟩ := List.mem_map.mp hg
+    exact h.1
+  | .multiMatch q fields ty opAnd msm, sc, h, he => by
+    simp only [forces, Bool.and_eq_true] at h
+    simp only [plan] at he
+    cases hr : resolveMsm msm (parseQuery q).terms.length opAnd with
+    | none => rw [hr] at h; simp at h
+    | some k =>
+      rw [hr] at h he
+      have hk : 1 ≤ k := by simpa using h.2
+      have hts : (parseQuery q).terms.map (mmGroup fields sc) ≠ [] := by
+        intro hnil
+        have : (parseQuery q).terms.length = 0 := by
+          have := congrArg List.length hnil
+          simpa using this
+        unfold resolveMsm at hr
+        rw [if_pos this] at hr
+        cases hr
+      obtain ⟨g, hg, hm⟩ := qs_hit c segs s o _ _ _ k hk hts (Or.inl he)
+      refine ⟨g, by simp only [plan, Matcher.groups, hr]; exact List.mem_append_left _ hg, ?_, hm⟩
+      obtain ⟨t, _, rfl⟩ := List.mem_map.mp hg
+      exact h.1
+  | .disMax qs, sc, h, he => by
+    simp only [forces] at h
+    simp only [plan, evalM] at he
+    simpa [plan, Matcher.groups] using forcesAll_any qs sc h he
+  | .bool must should mustNot filter msm, sc, h, he => by
+    simp only [forces, Bool.or_eq_true, Bool.and_eq_true, decide_eq_true_eq] at h
+    simp only [plan, evalM, Bool.and_eq_true, decide_eq_true_eq, length_planList] at he
+    simp only [plan, Matcher.groups]
+    rcases h with h | ⟨hmin, hall⟩
+    · exact ScoredHit.mono (fun g hg => List.mem_append_left _ (List.mem_append_left _ hg))
+        (forcesAny_all must sc h he.1.1.1)
+    · have hc : 1 ≤ evalCount c segs s o (planList c sc should) := Nat.le_trans hmin he.2
+      exact ScoredHit.mono (fun g hg => List.mem_append_left _ (List.mem_append_right _ hg))
+        (forcesAll_count should sc hall hc)
+  | .constantScore _, _, h, _ => by simp [forces] at h
+theorem forcesAll_any : ∀ (qs : List Q) (sc : Bool), forcesAll sc qs = true →
+    evalAny c segs s o (planList c sc qs) = true → ScoredHit c segs s o (Matcher.groupsList (planList c sc qs))
+  | [], _, _, he => by simp [planList, evalAny] at he
+  | q :: qs, sc, h, he => by
+    simp only [forcesAll, Bool.and_eq_true] at h
+    simp only [planList, evalAny, Bool.or_eq_true] at he
+    simp only [planList, Matcher.groupsList]
+    rcases he with he | he
+    · exact ScoredHit.mono (fun g hg => List.mem_append_left _ hg) (forces_hit q sc h.1 he)
+    · exact ScoredHit.mono (fun g hg => List.mem_append_right _ hg) (forcesAll_any qs sc h.2 he)
+theorem forcesAny_all : ∀ (qs : List Q) (sc : Bool), forcesAny sc qs = true →
+    evalAll c segs s o (planList c sc qs) = true → ScoredHit c segs s o (Matcher.groupsList (planList c sc qs))
+  | [], _, h, _ => by simp [forcesAny] at h
+  | q :: qs, sc, h, he => by
+    simp only [forcesAny, Bool.or_eq_true] at h
+    simp only [planList, evalAll, Bool.and_eq_true] at he
+    simp only [planList, Matcher.groupsList]
+    rcases h with h | h
+    · exact ScoredHit.mono (fun g hg => List.mem_append_left _ hg) (forces_hit q sc h he.1)
+    · exact ScoredHit.mono (fun g hg => List.mem_append_right _ hg) (forcesAny_all qs sc h he.2)
+theorem forcesAll_count : ∀ (qs : List Q) (sc : Bool), forcesAll sc qs = true →
+    1 ≤ evalCount c segs s o (planList c sc qs) → ScoredHit c segs s o (Matcher.groupsList (planList c sc qs))
+  | [], _, _, he => by simp [planList, evalCount] at he
+  | q :: qs, sc, h, he => by
+    simp only [forcesAll, Bool.and_eq_true] at h
+    simp only [planList, evalCount] at he
+    simp only [planList, Matcher.groupsList]
+    cases hq : evalM c segs s o (plan c sc q) with
+    | true => exact ScoredHit.mono (fun g hg => List.mem_append_left _ hg) (forces_hit q sc h.1 hq)
+    | false =>
+      rw [hq] at he
+      simp only [Bool.false_eq_true, if_false, Nat.zero_add] at he
+      exact ScoredHit.mono (fun g hg => List.mem_append_right _ hg) (forcesAll_count qs sc h.2 he)
+end
+
+/-- a scored group that lists the ordinal contributes a qualified key listing it -/
+theorem hasQualified_of_scoredHit {m : Matcher} (h : ScoredHit c segs s o m.groups) :
+    hasQualified (qualified c segs m) s o = true := by
+  obtain ⟨g, hg, hsc, hm⟩ := h
+  unfold groupMatches at hm
+  obtain ⟨k, hk, hko⟩ := List.any_eq_true.mp hm
+  unfold hasQualified
+  rw [List.any_eq_true]
+  refine ⟨k, ?_, hko⟩
+  unfold qualified
+  rw [List.mem_flatMap]
+  exact ⟨g, List.mem_filter.mpr ⟨hg, hsc⟩, hk⟩
+
+end Forces
+
 end SL.Query
